@@ -23,6 +23,9 @@ type c03Part struct {
 	Keys []string `json:"keys,omitempty"` // predicate strategy: the keys this partition's predicate accepts
 	Init int      `json:"init,omitempty"` // lookup: the limit argument the partition object is constructed with (the strategy must overwrite it with the share)
 	Obj  string   `json:"obj,omitempty"`  // lookup, dynamic add: the partition object's own name when it differs from the routing key it is added under
+	// Reuse (dynamic add): when a partition object of this name was removed earlier, that same object is handed in
+	// again (with its fraction) instead of a new one
+	Reuse bool `json:"reuse,omitempty"`
 }
 
 type c03Op struct {
@@ -149,6 +152,12 @@ func genC03(t *rapid.T) c03Case {
 		case k < 15:
 			return c03Op{K: "rel", Idx: rapid.IntRange(0, 1000).Draw(t, "idx")}
 		case k < 17:
+			if rapid.IntRange(0, 7).Draw(t, "burst") == 0 {
+				// the limit moves many times in a row (an adaptive limit does that window after window) while some
+				// partitions are not touched at all; counts around powers of two on purpose
+				return c03Op{K: "burst", N: rapid.OneOf(rapid.IntRange(2, 40), rapid.SampledFrom([]int{127, 128, 129, 255, 256, 257, 511, 512, 513, 600})).Draw(t, "nBurst"),
+					Idx: rapid.IntRange(1, 60).Draw(t, "burstBase")}
+			}
 			if len(noisyLimits) > 0 && rapid.Bool().Draw(t, "setNoisy") {
 				return c03Op{K: "set", N: rapid.SampledFrom(noisyLimits).Draw(t, "nNoisy")}
 			}
@@ -158,6 +167,7 @@ func genC03(t *rapid.T) c03Case {
 			if rapid.IntRange(0, 2).Draw(t, "otherObjName") == 0 {
 				p.Obj = "obj-" + p.Name // routed by the key given to AddPartition, not by the object's name
 			}
+			p.Reuse = rapid.Bool().Draw(t, "reuse") // if an object of that name was removed earlier, hand the same object in again
 			return c03Op{K: "add", Part: &p}
 		default:
 			return c03Op{K: "rm", Key: rapid.SampledFrom(names).Draw(t, "rmkey")}
@@ -308,6 +318,7 @@ func runC03(_ *testing.T, c c03Case) (out kit.Outcome) {
 		t   core.StrategyToken
 	}
 	var held []tok
+	var gone []*c03Bin // removed partition objects (may be re-attached)
 	var sawBorrow, sawGuaranteed, sawRefusal, sawUnknown, sawSetHeld, sawDyn bool
 	observe := func(i int, op c03Op) *kit.Outcome {
 		var gb, gl int
@@ -341,6 +352,17 @@ func runC03(_ *testing.T, c c03Case) (out kit.Outcome) {
 			}
 			if want := c03Share(total, b.part.Frac); bl != want {
 				o := kit.Viol(c.Kind+":bin-share", "after op %d %v: bin %q (fraction %v) limit=%d, want max(1,ceil(%d*%v))=%d", i, op, b.part.Name, b.part.Frac, bl, total, b.part.Frac, want)
+				return &o
+			}
+			// the partition object itself (exported, kept by the caller, read by the partition's limit gauge) agrees
+			var ob, ol int
+			if b.lookup != nil {
+				ob, ol = b.lookup.BusyCount(), b.lookup.Limit()
+			} else {
+				ob, ol = b.pred.BusyCount(), b.pred.Limit()
+			}
+			if ob != bb || ol != bl {
+				o := kit.Viol(c.Kind+":bin-object", "after op %d %v: partition object %q reports busy=%d limit=%d, the strategy reports %d / %d for that bin", i, op, b.part.Name, ob, ol, bb, bl)
 				return &o
 			}
 			sum += b.busy
@@ -425,9 +447,35 @@ func runC03(_ *testing.T, c c03Case) (out kit.Outcome) {
 			if total < 1 {
 				total = 1
 			}
+		case "burst":
+			if len(held) > 0 {
+				sawSetHeld = true
+			}
+			for j := 0; j < op.N; j++ {
+				total = op.Idx + j%2 // two alternating values: every call is a change
+				if j == op.N-1 {
+					total = op.Idx + 7 // and the last one lands on a third value
+				}
+				if c.Kind == "lookup" {
+					ls.SetLimit(total)
+				} else {
+					ps.SetLimit(total)
+				}
+			}
 		case "add":
 			sawDyn = true
 			b := mkBin(*op.Part)
+			if op.Part.Reuse {
+				// re-attach an object that was removed earlier (its outstanding tokens still release on it)
+				for _, g := range gone {
+					if g.part.Name == op.Part.Name && g.part.Obj == op.Part.Obj {
+						b = g
+						b.part.Frac = g.part.Frac
+						op.Part.Frac = g.part.Frac
+						break
+					}
+				}
+			}
 			if c.Kind == "lookup" {
 				exists := find(op.Part.Name) != unk
 				// keep the generated fractions summing to <= 1: skip an add that would exceed it
@@ -460,6 +508,7 @@ func runC03(_ *testing.T, c c03Case) (out kit.Outcome) {
 				}
 				if ok {
 					bins = removeBin(bins, bin)
+					gone = append(gone, bin)
 				}
 			} else {
 				removed, ok := ps.RemovePartitionsMatching(c03Ctx(op.Key))
@@ -477,6 +526,7 @@ func runC03(_ *testing.T, c c03Case) (out kit.Outcome) {
 						return kit.Viol("predicate:remove-result", "op %d RemovePartitionsMatching(%q): wrong partition removed", i, op.Key)
 					}
 					bins = removeBin(bins, b)
+					gone = append(gone, b)
 				}
 			}
 		}
